@@ -4,6 +4,7 @@ use crate::common::udpendpoint::UDPEndpoint;
 use crate::common::{alc, fdtinstance::FdtInstance, lct};
 use crate::{receiver::writer::ObjectMetadata, tools};
 use crate::{receiver::writer::ObjectWriter, tools::error::Result};
+use std::time::Instant;
 use std::{cell::RefCell, rc::Rc, time::SystemTime};
 
 #[derive(Clone, Copy, PartialEq, Debug)]
@@ -126,6 +127,17 @@ impl FdtReceiver {
                 objectreceiver::State::Error => self.inner.borrow_mut().state = FDTState::Error,
             }
         }
+    }
+
+    /// Duration since the last packet of this FDT instance has been received,
+    /// None if the FDT is not in reception anymore
+    pub fn receiving_inactivity_duration(
+        &self,
+        now: Instant,
+    ) -> Option<std::time::Duration> {
+        self.obj
+            .as_ref()
+            .map(|obj| obj.last_activity_duration_since(now))
     }
 
     pub fn get_server_time(&self, now: std::time::SystemTime) -> std::time::SystemTime {
